@@ -184,6 +184,9 @@ pub struct World {
     caps: Caps,
     max_chans: usize,
     max_items: usize,
+    /// free descriptor number 0 (the worker's placeholder) right before every receive/select, so
+    /// that received endpoints land on it; the owner of the world restores it at the end
+    pub fd0_before_receives: bool,
 }
 
 const BUDGET: usize = 90 * 1024;
@@ -324,6 +327,7 @@ impl World {
             caps: Caps { f1, f },
             max_chans: 6,
             max_items: 8,
+            fd0_before_receives: false,
         }
     }
 
@@ -599,7 +603,12 @@ impl World {
                 Ok(())
             },
             Op::Send { tx, size, tree } => self.op_send(*tx, size, tree),
-            Op::Recv { rx, mode } => self.op_recv(*rx, *mode),
+            Op::Recv { rx, mode } => {
+                if self.fd0_before_receives {
+                    crate::fdsnap::fd0::free();
+                }
+                self.op_recv(*rx, *mode)
+            },
             Op::RegionNew { len, seed, fill } => {
                 if self.regions.len() >= 8 {
                     return self.skip("region:limit");
@@ -670,7 +679,12 @@ impl World {
                 self.trace.push(format!("setadd{}", h.chan));
                 Ok(())
             },
-            Op::SetSelect(s) => self.op_select(*s),
+            Op::SetSelect(s) => {
+                if self.fd0_before_receives {
+                    crate::fdsnap::fd0::free();
+                }
+                self.op_select(*s)
+            },
             Op::SetDrop(s) => {
                 if self.sets.is_empty() {
                     return self.skip("setdrop");
